@@ -632,8 +632,11 @@ pub fn run(r: &mut Runner, level: &str, profile: &str, seed: u64, count: u64, ti
             }
         }
     }
-    if level == "conn" && matches!(profile, "C11" | "C12") {
+    if level == "conn" && matches!(profile, "C11" | "C12" | "C18") {
         big_response(r);
+    }
+    if level == "conn" && matches!(profile, "C18" | "C13" | "C10") {
+        limit_edge(r);
     }
     if level == "conn" && profile == "C11" {
         tcp_value_sizes(r);
@@ -799,7 +802,54 @@ pub fn big_response(r: &mut Runner) {
         Ok(())
     })();
     if let Err(e) = verdict {
-        r.violations.push((prog, vec!["C11", "C12"], start, format!("large response over a real socket: {}", e)));
+        r.violations.push((prog, vec!["C11", "C12", "C18"], start, format!("large response over a real socket (the client reads it 1.6 s late; every request was completely sent): {}", e)));
+    }
+}
+
+/// C13 / C18 / C10 at the edge of the item size limit over a real socket (the receive path of `read_frame`, which the
+/// in-process suites do not go through): requests whose body is the limit minus 0, 1, 23, 24, 25 bytes, each between two
+/// quiet stores and followed by a noop, under limits above the initial receive buffer. Every one of them is within the limit:
+/// stored, answered with status 0, and the connection goes on.
+pub fn limit_edge(r: &mut Runner) {
+    use std::io::{Read, Write};
+    for limit in [20000u32, 65536] {
+        let clock = std::sync::Arc::new(crate::sut::Clock(std::sync::atomic::AtomicU64::new(0)));
+        let mem = std::sync::Arc::new(memcrs::memory_store::store::MemoryStore::new(clock));
+        let store: std::sync::Arc<dyn memcrs::cache::cache::Cache + Send + Sync> = mem.clone();
+        let srv = crate::net::start_server(store, limit, 8, 30);
+        r.exec(&format!("note limit-edge: item limit {}; setq before<k>, set item<k> with a body of limit-k bytes, setq after<k>, noop; k = 0, 1, 23, 24, 25", limit));
+        let start = r.ops.len() - 1;
+        let prog = r.prog_start.len().saturating_sub(1);
+        let Ok(mut c) = std::net::TcpStream::connect(("127.0.0.1", srv.port)) else { continue };
+        c.set_nodelay(true).ok();
+        c.set_read_timeout(Some(std::time::Duration::from_millis(3000))).ok();
+        for k in [0usize, 1, 23, 24, 25] {
+            let key = format!("item{}", k).into_bytes();
+            let vlen = limit as usize - k - 8 - key.len();
+            let mut b = wire::set_like(op::SETQ, format!("before{}", k).as_bytes(), b"b", 0, 0, 0, 1).bytes();
+            b.extend(wire::set_like(op::SET, &key, &vec![b'e'; vlen], 0, 0, 0, 2).bytes());
+            b.extend(wire::set_like(op::SETQ, format!("after{}", k).as_bytes(), b"a", 0, 0, 0, 3).bytes());
+            b.extend(wire::bare(op::NOOP, 4).bytes());
+            let sent = c.write_all(&b).is_ok();
+            let mut got: Vec<u8> = vec![];
+            let mut buf = [0u8; 4096];
+            while got.len() < 48 {
+                match c.read(&mut buf) {
+                    Ok(0) | Err(_) => break,
+                    Ok(n) => got.extend_from_slice(&buf[..n]),
+                }
+            }
+            let recs = crate::sut::Sut::records_of(&mem);
+            let has = |k: &[u8]| recs.iter().any(|(kk, _)| kk.as_slice() == k);
+            let st: Vec<(u8, u16)> = wire::split_resps(&got).map_or(vec![], |fr| fr.iter().filter_map(|f| wire::parse_resp(f).ok()).map(|x| (x.opcode, x.status)).collect());
+            let ok = sent && st == vec![(op::SET, 0), (op::NOOP, 0)] && has(&key) && has(format!("before{}", k).as_bytes()) && has(format!("after{}", k).as_bytes());
+            if !ok {
+                r.violations.push((prog, vec!["C13", "C18", "C10"], start, format!(
+                    "item limit {}: a set whose body is {} bytes (the limit minus {}) between two quiet stores: responses (opcode, status) {:?} instead of [set ok, noop ok]; stored: before {} item {} after {}",
+                    limit, limit as usize - k, k, st, has(format!("before{}", k).as_bytes()), has(&key), has(format!("after{}", k).as_bytes()))));
+                break;
+            }
+        }
     }
 }
 
